@@ -312,7 +312,23 @@ func (s *sim) create(st Step) {
 			return
 		}
 		if len(res.NewNodeClaims) != 1 {
-			cerr = fmt.Errorf("scheduler opened %d nodeclaims (pod errors %d)", len(res.NewNodeClaims), len(res.PodErrors))
+			pend, _ := p.GetPendingPods(pctx)
+			if os.Getenv("DRIFT_DEBUG") != "" {
+				for _, n := range res.ExistingNodes {
+					fmt.Fprintf(os.Stderr, "existing %s pods=%d\n", n.Name(), len(n.Pods))
+				}
+				for pp, e := range res.PodErrors {
+					fmt.Fprintf(os.Stderr, "poderr %s %v\n", pp.Name, e)
+				}
+				for _, pp := range pend {
+					fmt.Fprintf(os.Stderr, "pending %s %v\n", pp.Name, pp.Spec.NodeSelector)
+				}
+				for _, ev := range s.w.Rec.Events {
+					fmt.Fprintf(os.Stderr, "event %s %s\n", ev.Reason, ev.Message)
+				}
+			}
+			cerr = fmt.Errorf("scheduler opened %d nodeclaims (pod errors %d, existing nodes %d, pending pods %d)", len(res.NewNodeClaims),
+				len(res.PodErrors), len(res.ExistingNodes), len(pend))
 			return
 		}
 		names, cerr = p.CreateNodeClaims(pctx, res.NewNodeClaims, provisioning.WithReason("provisioned"))
@@ -530,6 +546,10 @@ func (s *sim) editPool(st Step) {
 		}
 		if applied && !strings.HasSuffix(st.What, "Ann") {
 			np.Generation++
+			// the nodepool validation / readiness controllers have observed the new generation
+			for i := range np.Status.Conditions {
+				np.Status.Conditions[i].ObservedGeneration = np.Generation
+			}
 		}
 	})
 	if !ok || !applied {
@@ -759,8 +779,7 @@ func (s *sim) obs(after string) {
 func (s *sim) step(st Step) error {
 	w := s.w
 	// the behaviour's action itself (environment input); ghosts of the trace spec are driven by it
-	b, _ := json.Marshal(st)
-	w.Emit(trace.M{"e": "Step", "a": st.A, "c": dash(st.C), "what": dash(st.What), "key": dash(st.Key), "json": string(b)})
+	w.Emit(trace.M{"e": "Step", "a": st.A, "c": dash(st.C), "what": dash(st.What), "key": dash(st.Key)})
 	switch st.A {
 	case "Create":
 		s.create(st)
@@ -774,8 +793,10 @@ func (s *sim) step(st Step) error {
 	case "DriftRec":
 		s.driftRec(st.C)
 	case "DriftAll":
-		for _, c := range append([]string{}, s.order...) {
-			s.obs("pre-DriftAll")
+		for i, c := range append([]string{}, s.order...) {
+			if i > 0 {
+				s.obs("DriftAll") // post-state of the previous reconcile = pre-state of the next
+			}
 			s.driftRec(c)
 		}
 	case "HashRec":
@@ -826,7 +847,6 @@ func (s *sim) sweep(st Step) {
 		if k > 0 {
 			s.create(Step{A: "Create", C: c, Sel: st.Sel})
 		}
-		s.obs("Sweep-create")
 		s.launch(c, "#"+strconv.Itoa(k))
 		if st.On {
 			s.register(c)
@@ -848,7 +868,13 @@ func RunOne(b Behaviour, tw *trace.Writer) error {
 	tw.Begin(trace.M{"module": "Drift", "part": "world", "behJson": string(behJSON), "tag": dash(b.Tag), "cur": "=" + v1.NodePoolHashVersion,
 		"typeKey": corev1.LabelInstanceTypeStable, "zoneKey": corev1.LabelTopologyZone, "ctKey": v1.CapacityTypeLabelKey,
 		"instanceTypeAge": 3600, "pool": poolName})
-	w.Sink = tw.Emit
+	w.Sink = func(ev trace.M) {
+		switch ev["e"] {
+		case "Api", "Env", "Prov", "Tick", "Read": // not consumed by Drift_Trace (the Obs events carry the observed state)
+			return
+		}
+		tw.Emit(ev)
+	}
 	w.EnvCreate(world.NodeClass())
 	np := world.NodePool(poolName)
 	for _, r := range b.Scn.Reqs {
@@ -863,6 +889,7 @@ func RunOne(b Behaviour, tw *trace.Writer) error {
 	if b.Scn.Static {
 		np.Spec.Replicas = lo.ToPtr(int64(2))
 	}
+	np.Generation = 1
 	np.StatusConditions().SetTrue(v1.ConditionTypeValidationSucceeded)
 	np.StatusConditions().SetTrue(v1.ConditionTypeNodeClassReady)
 	np.StatusConditions().SetTrue(status.ConditionReady)
